@@ -713,7 +713,7 @@ def run(ctx):
         if not ctx.quick:
             runs += [('Gen_Ledger2.cfg', dict(env={'GEN_PART': part})) for part in range(GEN_PARTS)]
         # simulated walks of 6 directives; every walk emits ~600 ledgers (all successors of each of its states)
-        for n in range(ctx.pick(1, 6)):
+        for n in range(ctx.pick(1, 4)):
             w = ctx.pick(2, 8)
             runs.append(('Gen_LedgerSim.cfg', dict(simulate='num=1', depth=6, seed=ctx.seed + n, workers=w,
                                                    env={'GEN_PART': -1})))
@@ -741,7 +741,7 @@ def run(ctx):
             wins = wins[:2] + rng.sample(wins[2:], min(8, max(0, len(wins) - 2)))
         for n, wdw in enumerate(wins):
             rec.add(wdw, options, 'example-window', text_lookups=(n == 0))
-        for n in range(ctx.pick(100, 2500)):
+        for n in range(ctx.pick(100, 2000)):
             a = lg.random_ledger(rng, rng.randint(3, 36), direct=True)
             es, opts = lg.build_entries(a)
             rec.add(es, opts, 'random-direct', abstract=a['entries'])
